@@ -18,6 +18,7 @@ package validation
 
 import (
 	"fmt"
+	"strconv"
 	"strings"
 
 	"github.com/compose-spec/compose-go/v2/consts"
@@ -29,7 +30,15 @@ func checkExternal(v map[string]any, p tree.Path) error {
 	if !ok {
 		return nil
 	}
-	if !b.(bool) {
+	var external bool
+	switch e := b.(type) {
+	case bool:
+		external = e
+	case string:
+		// value was not interpolated
+		external, _ = strconv.ParseBool(e)
+	}
+	if !external {
 		return nil
 	}
 
